@@ -163,6 +163,7 @@ pub fn run(ctx: &mut Ctx) {
     ctx.floor("records.ok", 3_000);
     ctx.floor("datagrams.ok", 1_000);
     ctx.floor("hs.types.fragmented", 256);
+    ctx.floor("long-trailing", 300);
 
     // ------------------------------------------------ all declared lengths (alert records)
     ctx.sweep("sweep-length", 64, |ctx, idx| {
@@ -222,6 +223,21 @@ pub fn run(ctx: &mut Ctx) {
         }
     });
     ctx.mark_exhaustive("all 65536 epochs; every single bit of the epoch+sequence word");
+
+
+    // ------------------------------------------------ complete record followed by more than 64 KiB of trailing bytes
+    let n_long = ctx.tier.pick(300, 3_000);
+    ctx.family("long-trailing", n_long, |ctx, case: &mut Case| {
+        let r = &mut case.rng;
+        let k = r.usize(1, 300);
+        let payload: Vec<u8> = (0..k).flat_map(|_| [1u8, 0]).collect(); // k warning/close_notify alerts
+        let h = gen::dtls_hdr(r, 0x15);
+        let mut rec = refenc::dtls_record(&h, &payload);
+        let extra = *r.pick(&[65523usize, 65535, 65536, 65537, 70000, 131072, 196613]) + r.usize(0, 3);
+        rec.resize(rec.len() + extra, 0x77);
+        frame_case(ctx, &h, payload.len(), &rec, true, "long-trailing");
+        ctx.count("long-trailing");
+    });
 
     // ------------------------------------------------ generated records: value + every prefix
     let n = ctx.tier.pick(6_000, 60_000);
